@@ -179,8 +179,9 @@ of `version.Higher/Equal/Lower(<version constant>)` and `bucketInfo.IsMagma()` â
 evaluates it (with the REAL comparison methods) on every point of the sample
 grid below; it reports the truth table, run-length encoded.  Any semantically
 equal rewrite of a condition gives the same table.  A condition whose shape is
-outside that little language is reported as `unknown`; the model side echoes
-`unknown` (no alarm: the behavioural `ver-gate` lines and the L2 tie remain).
+outside that little language is reported as `unknown`; the model side prints the
+expected table, so the broken source tie shows as a divergence (the behavioural `ver-gate` / `ver-gate-e2e` lines
+decide whether there is a failing input).
 -/
 
 def range' (lo hi : Int) : List Int := List.map (fun (i : Nat) => lo + Int.ofNat i) (List.range (hi - lo + 1).toNat)
@@ -205,6 +206,21 @@ def expectedGateTables : List (String Ã— String) :=
    ("changeStreams", rle (samplePoints.map (gateChangeStreams false) ++ samplePoints.map (gateChangeStreams true))),
    ("serialClose", rle (samplePoints.map gateSerialClose))]
 
+/-- `ver-gate-e2e =<enc version text> magma|couchstore` â†’ `exp=0|1 cs=0|1`: the DCP_CONTROL keys the REAL `dcp.NewDcp`
+    negotiates with a simulated node reporting that version text and storage back end = the model's parser followed by the model's
+    gates (`gateExpiry`, `gateChangeStreams`); an unparsable text makes start-up fail -/
+def hGateE2E (args : List String) (real : Option String) : Option Out := do
+  let [a, be] := args | none
+  let text â† decodeArg a
+  let isMagma â† if be == "magma" then some true else if be == "couchstore" then some false else none
+  let model := match parse text with
+    | .ok v => s!"exp={bit (gateExpiry v)} cs={bit (gateChangeStreams isMagma v)}"
+    | _ => "start-error"
+  let verdict := match real with
+    | none => "-"
+    | some r => if r == model then "ok" else "FAIL C18.gate-threshold"
+  some { model, verdict }
+
 def hGatesSrc (args : List String) (real : Option String) : Option Out := do
   let [] := args | none
   let realFields : List (String Ã— String) := match real with
@@ -212,12 +228,14 @@ def hGatesSrc (args : List String) (real : Option String) : Option Out := do
     | some r => (toks r).filterMap fun t => match t.splitOn "=" with
       | [k, v] => some (k, v)
       | _ => none
-  let fields := expectedGateTables.map fun (k, v) =>
-    if realFields.lookup k == some "unknown" then s!"{k}=unknown" else s!"{k}={v}"
+  -- a condition outside the extractor's little language is reported as `unknown` by the harness: the tie through the source no longer
+  -- checks, which is reported (a divergence); the behavioural lines (`ver-gate`, `ver-gate-e2e`) decide whether a failing input exists
+  let _ := realFields
+  let fields := expectedGateTables.map fun (k, v) => s!"{k}={v}"
   some { model := join fields }
 
 def versionHandlers : List (String Ã— (List String â†’ Option String â†’ Option Out)) :=
   [("ver-intsize", hIntSize), ("ver-cmp", hCmp), ("ver-tri", hTri), ("ver-gate", hGate),
-   ("ver-parse", hParse), ("ver-render", hRender), ("ver-gates-src", hGatesSrc)]
+   ("ver-parse", hParse), ("ver-render", hRender), ("ver-gates-src", hGatesSrc), ("ver-gate-e2e", hGateE2E)]
 
 end GoDcp.Driver
